@@ -133,10 +133,23 @@ def execute(case):
         gone.predecessors = [objs[leaves[0]]]
         w.remove(gone)
 
+    # predecessors OUTSIDE the WBS (free-standing, or a member of another project whose id equals the id of a
+    # member of this one): they are no tasks of this WBS, so neither part of its network nor of the answer
+    xleaf, outside = 0, []
+    if case["id"] % 7 in (2, 3):
+        leaves = [i for i, t in enumerate(I["tasks"], start=1) if not t["kids"]]
+        xleaf = leaves[(case["id"] // 7) % len(leaves)]
+        if case["id"] % 7 == 2:
+            outside = [pj.Task(9997, estimate=60)]
+        else:
+            elsewhere = pj.WBS()
+            twin = I["tasks"][leaves[(case["id"] // 7 + 1) % len(leaves)] - 1]["id"]
+            outside = [elsewhere // pj.Task(twin, estimate=60)]
+
     def link():
         for i, t in enumerate(I["tasks"], start=1):
-            if t["pre"]:
-                objs[i].predecessors = [objs[p] for p in t["pre"]]
+            if t["pre"] or i == xleaf:
+                objs[i].predecessors = [objs[p] for p in t["pre"]] + (outside if i == xleaf else [])
 
     if mode == 2:
         link()
